@@ -1,9 +1,14 @@
 #!/bin/bash
 # usage: tools/run_seeded_matrix.sh [<id>...]  — for every kept seeded change (default: all under seeded/): (re)confirm it in a scratch worktree of
 # /repo HEAD if no confirmation is recorded, then run the quick check of the property it breaks (plus any listed in seeded/<id>/also_checks)
-# against a scratch worktree with the change applied, and record the outcome in seeded/<id>/detection.txt. /repo itself is never touched.
+# against ONE scratch worktree (/tmp/wt/mx, so that the Go build cache is reused) with the change applied, undo it, and record the outcome in
+# seeded/<id>/detection.txt. /repo itself and /verif/evidence are never touched (VERIF_REPO / VERIF_OUT).
 cd "$(dirname "$0")/.."
 IDS="${@:-$(ls seeded)}"
+WT=/tmp/wt/mx
+git -C /repo worktree remove --force $WT 2>/dev/null
+git -C /repo worktree add -q --detach $WT HEAD || exit 2
+trap 'git -C /repo worktree remove --force $WT 2>/dev/null' EXIT
 for id in $IDS; do
   d=seeded/$id
   patch=$d/patch.diff; [ -f $d/patch_ported.diff ] && patch=$d/patch_ported.diff
@@ -13,10 +18,17 @@ for id in $IDS; do
     mkdir -p /tmp/seedout/reconf_$id; cp $patch /tmp/seedout/reconf_$id/patch.diff; cp $d/agent_meta.json $d/*_test.go /tmp/seedout/reconf_$id/ 2>/dev/null
     tools/confirm_mutant.sh /tmp/seedout/reconf_$id $id; cp /tmp/seedout/reconf_$id/confirmation.txt $d/confirmation.txt
   fi
-  mkdir -p /tmp/seedout/mx_$id; cp $patch /tmp/seedout/mx_$id/patch.diff
-  tools/try_mutant_wt.sh /tmp/seedout/mx_$id/patch.diff $prop $also > $d/detection.txt 2>&1
-  sed -i "s/with mx_$id/with $id/" $d/detection.txt
+  git -C $WT checkout -q -- . ; git -C $WT clean -qfd
+  if ! git -C $WT apply "$PWD/$patch"; then echo "$id: patch does not apply to HEAD" | tee $d/detection.txt; continue; fi
+  OUT=/tmp/seedout/out_mx_$id; mkdir -p $OUT
+  : > $d/detection.txt
+  for p in $prop $also; do
+    echo "=== $p with $id" >> $d/detection.txt
+    VERIF_REPO=$WT VERIF_OUT=$OUT timeout 1500 ./check "$p" quick 2>&1 | grep -E "VIOLATION|KNOWN-FINDING|HARNESS|evaluations|^  \[" | cut -c1-600 | head -12 >> $d/detection.txt
+    echo "exit=${PIPESTATUS[0]}" >> $d/detection.txt
+  done
+  git -C $WT checkout -q -- . ; git -C $WT clean -qfd
   echo "$id: $(grep '^exit=' $d/detection.txt | tr '\n' ' ') $(grep -E '^(BUILD|EXISTING|DEMO)' $d/confirmation.txt | sed 's/ (with.*//' | tr '\n' ' ')"
-  rm -rf /tmp/seedout/mx_$id /tmp/seedout/out_mx_$id
+  rm -rf $OUT
 done
 python3 tools/mkmeta.py
